@@ -1,26 +1,104 @@
-(* C20 — obligations on the tables regenerated from token.go / scanner.go on every run
-   (coq/gen/C20Consts.v, tools/c20consts.py): today's values are the ones Model.v and Scanner.v are
-   written for.  A changed keyword, HTTP method, keyword text, one-character token or white-space
-   character breaks one of these proofs. *)
+(* C20 — obligations on the tables regenerated on every run from the COMPILED token and scanner
+   packages of the tree under test (coq/gen/C20Consts.v, tools/c20consts.py, executor `c20 -tables`):
+   today's token.go / scanner.go are the ones Model.v and Scanner.v are written for.
+
+     token.go    every named token type is a lexical class of the model (or one of the types the
+                 scanner never produces), and every class of the model exists over there under the
+                 name the executor reports; LookupKeyword = the model parser's keyword table, on
+                 every type name and on a vocabulary of words; HttpMethods / IsHttpMethod = the model's
+                 method table; the keyword texts the parser compares identifiers with.
+     scanner.go  the model scanner returns the same tokens (kind, text, line bit), the same comments
+                 and the same error flag as scanner.go on every enumerated probe: all 1-character texts,
+                 "a<c>b" for every ASCII character c, all 2-character texts over one representative of every
+                 lexical class, all 3-character texts over a smaller alphabet, a list of words
+                 (valid UTF-8 texts: scanner.go replaces invalid UTF-8 by U+FFFD before it scans).
+
+   A changed keyword, method, token text, operator, white-space character or scanner rule breaks
+   one of these proofs (all by computation on today's tables). *)
 From Coq Require Import List String Ascii Bool Arith.
-From GZ Require Import C20.Model C20.Scanner.
+From GZ Require Import C20.Model C20.Scanner C20.Check.
 From GZgen Require Import C20Consts.
 Import ListNotations.
 Open Scope string_scope.
 Open Scope list_scope.
 
-(* LookupKeyword's table = the keyword check of the model parser *)
-Lemma gen_keywords_ok : gen_keywords = go_keywords.
-Proof. reflexivity. Qed.
+(* ---- token types: Type.String() of the type a lexical class of the model stands for ... *)
+Definition type_text (k : kind) : string :=
+  match k with
+  | KIdent => "IDENT" | KInt => "INT" | KDur => "DURATION" | KStr => "STRING" | KRaw => "RAW_STRING"
+  | KSub => "-" | KMul => "*" | KQuo => "/" | KAssign => "="
+  | KLParen => "(" | KLBrack => "[" | KLBrace => "{" | KComma => "," | KDot => "."
+  | KRParen => ")" | KRBrace => "}" | KRBrack => "]" | KSemi => ";" | KColon => ":" | KEllipsis => "..."
+  | KAtDoc => "@doc" | KAtHandler => "@handler" | KAtServer => "@server" | KAny => "interface{}"
+  | KIllegal => "ILLEGAL"
+  end.
+(* ... and the name under which the executor reports it (harness/goctlh/cmd/c20 kind(): the name of
+   the Go constant for literals, @-keywords and interface{}; Type.String() for operators) *)
+Definition kind_name (k : kind) : string :=
+  match k with
+  | KAtDoc => "AT_DOC" | KAtHandler => "AT_HANDLER" | KAtServer => "AT_SERVER" | KAny => "ANY"
+  | _ => type_text k
+  end.
 
-(* token.HttpMethods (what advanceIfPeekTokenIs(token.HttpMethods...) compares texts with) *)
-Lemma gen_http_methods_ok : gen_http_methods = http_methods.
-Proof. reflexivity. Qed.
-Lemma gen_http_method_set_ok : forall m, mem m gen_http_method_set = mem m http_methods.
+Definition all_kinds : list kind :=
+  [KIdent; KInt; KDur; KStr; KRaw; KSub; KMul; KQuo; KAssign; KLParen; KLBrack; KLBrace; KComma; KDot;
+   KRParen; KRBrace; KRBrack; KSemi; KColon; KEllipsis; KAtDoc; KAtHandler; KAtServer; KAny; KIllegal].
+
+Lemma all_kinds_complete : forall k, In k all_kinds.
+Proof. destruct k; cbn; tauto. Qed.
+
+Definition kind_of_name (n : string) : option kind :=
+  find (fun k => String.eqb (kind_name k) n) all_kinds.
+Definition kind_of_type (n : string) : option kind :=
+  find (fun k => String.eqb (type_text k) n) all_kinds.
+
+Lemma kind_of_name_inverse : forall k, kind_of_name (kind_name k) = Some k /\ kind_of_type (type_text k) = Some k.
+Proof. destruct k; split; reflexivity. Qed.
+
+(* token types the scanner never hands to the parser as such: end of input, the two comment
+   types (projected away), PATH (made by the parser), and the Go keywords (LookupKeyword only) *)
+Definition non_scanner_type (n : string) : bool :=
+  mem n ["EOF"; "COMMENT"; "DOCUMENT"; "PATH"] || mem n go_keywords.
+
+(* every named type of token.go is a class of the model or one of those; every class of the model is a
+   named type of token.go; no name stands for two types *)
+Lemma gen_types_ok :
+  forallb (fun n => match kind_of_type n with Some _ => negb (non_scanner_type n) | None => non_scanner_type n end) gen_types = true
+  /\ forallb (fun k => mem (type_text k) gen_types) all_kinds = true
+  /\ NoDup gen_types.
 Proof.
-  intros m. unfold mem, gen_http_method_set, http_methods. cbn [existsb].
-  repeat match goal with |- context [String.eqb m ?x] => destruct (String.eqb m x) end; reflexivity.
+  split; [vm_compute; reflexivity|split; [vm_compute; reflexivity|]].
+  unfold gen_types. repeat (constructor; [cbn; intuition discriminate|]). constructor.
 Qed.
+
+(* the text of an operator / @-keyword / interface{} type IS its name: the model scanner reads
+   exactly one token of that class off it *)
+Definition fixed_text_kinds : list kind :=
+  [KSub; KMul; KQuo; KAssign; KLParen; KLBrack; KLBrace; KComma; KDot; KRParen; KRBrace; KRBrack; KSemi; KColon;
+   KEllipsis; KAtDoc; KAtHandler; KAtServer; KAny].
+Lemma gen_type_texts_scan :
+  forallb (fun k => match scan (type_text k) with
+                    | ([t], [], true) => kind_eqb (tk t) k && String.eqb (tx t) (type_text k)
+                    | _ => false
+                    end) fixed_text_kinds = true.
+Proof. vm_compute. reflexivity. Qed.
+
+(* ---- LookupKeyword = the keyword check of the model parser: on every type name, every HTTP method
+   and a vocabulary of words; every keyword of the model is found over there, under its own name *)
+Lemma gen_keywords_ok :
+  forallb (fun w : string * bool * string * bool =>
+             let '(word, kw, tname, _) := w in
+             Bool.eqb (is_keyword word) kw && (if kw then String.eqb tname word else String.eqb tname "")) gen_words = true
+  /\ forallb (fun k => existsb (fun w : string * bool * string * bool =>
+                                  let '(word, kw, _, _) := w in String.eqb word k && kw) gen_words) go_keywords = true.
+Proof. vm_compute. split; reflexivity. Qed.
+
+(* token.HttpMethods (what advanceIfPeekTokenIs(token.HttpMethods...) compares texts with) and IsHttpMethod *)
+Lemma gen_http_methods_ok :
+  gen_http_methods = http_methods
+  /\ forallb (fun w : string * bool * string * bool =>
+                let '(word, _, _, h) := w in Bool.eqb (mem word http_methods) h) gen_words = true.
+Proof. vm_compute. split; reflexivity. Qed.
 
 (* the texts the parser compares identifiers with *)
 Lemma gen_keyword_texts_ok :
@@ -41,40 +119,40 @@ Lemma gen_keyword_texts_used :
     = Some [SService None "s" false [Item None "h" (Route "get" (Path [] true) None (Some (Some (Body false false "T"))))]].
 Proof. vm_compute. repeat split; reflexivity. Qed.
 
-(* token texts of the @-keywords and of interface{} = what the model scanner produces *)
-Lemma gen_token_texts_ok :
-  scan (gen_text_AT_DOC ++ " " ++ gen_text_AT_HANDLER ++ " " ++ gen_text_AT_SERVER ++ " " ++ gen_text_ANY)
-  = ([tP KAtDoc "@doc"; tP KAtHandler "@handler"; tP KAtServer "@server"; tP KAny "interface{}"], [], true).
-Proof. vm_compute. reflexivity. Qed.
+(* ---- scanner.go on the enumerated probes = the model scanner *)
+Definition bytes_str (l : list nat) : string := string_of_list_ascii (map ascii_of_nat l).
 
-Lemma gen_at_words_ok : gen_at_words = ["doc"; "handler"; "server"].
-Proof. reflexivity. Qed.
-
-(* the one-character tokens of NextToken *)
-Definition kind_of_name (n : string) : option kind :=
-  if String.eqb n "LPAREN" then Some KLParen else if String.eqb n "RPAREN" then Some KRParen
-  else if String.eqb n "MUL" then Some KMul else if String.eqb n "COMMA" then Some KComma
-  else if String.eqb n "SUB" then Some KSub else if String.eqb n "COLON" then Some KColon
-  else if String.eqb n "SEMICOLON" then Some KSemi else if String.eqb n "ASSIGN" then Some KAssign
-  else if String.eqb n "LBRACK" then Some KLBrack else if String.eqb n "RBRACK" then Some KRBrack
-  else if String.eqb n "LBRACE" then Some KLBrace else if String.eqb n "RBRACE" then Some KRBrace
-  else None.
-
-Definition single_ok (p : string * string) : bool :=
-  match kind_of_name (snd p), scan (fst p) with
-  | Some k, ([t], [], true) => kind_eqb (tk t) k && String.eqb (tx t) (fst p)
-  | _, _ => false
+Fixpoint probe_tokens (l : list (string * list nat * bool)) : option (list token) :=
+  match l with
+  | [] => Some []
+  | (n, tx, nl) :: r =>
+    match kind_of_name n, probe_tokens r with
+    | Some k, Some ts => Some (T k (bytes_str tx) nl :: ts)
+    | _, _ => None
+    end
   end.
 
-Lemma gen_single_char_tokens_ok :
-  forallb single_ok gen_single_char_tokens = true /\ List.length gen_single_char_tokens = 12%nat.
-Proof. vm_compute. split; reflexivity. Qed.
+Definition probe_ok (p : list nat * bool * list (string * list nat * bool) * list (nat * list nat)) : bool :=
+  let '(inp, ok, toks, cmts) := p in
+  match probe_tokens toks with
+  | Some ts => scan_agrees (Some (bytes_str inp)) ok ts (map (fun c : nat * list nat => (fst c, bytes_str (snd c))) cmts)
+  | None => false
+  end.
 
-(* white space of skipWhiteSpace = is_ws of the model, exactly *)
-Lemma gen_white_space_ok :
-  forallb (fun n => Bool.eqb (is_ws (ascii_of_nat n)) (existsb (Nat.eqb n) gen_white_space)) (seq 0 256) = true.
+Lemma gen_scan_probes_ok : forallb probe_ok gen_scan_probes = true.
 Proof. vm_compute. reflexivity. Qed.
 
-(* the characters that turn an integer into a duration *)
-Lemma gen_duration_starts_ok : gen_duration_starts = ["n"; "µ"; "m"; "s"; "h"].
-Proof. reflexivity. Qed.
+(* the probes are not trivial: scanner errors, ILLEGAL tokens, comments, multi-token texts and
+   line breaks are all among them *)
+Lemma gen_scan_probes_nontrivial :
+  (1000 <=? List.length gen_scan_probes)%nat = true
+  /\ existsb (fun p : list nat * bool * list (string * list nat * bool) * list (nat * list nat) =>
+                let '(_, ok, _, _) := p in negb ok) gen_scan_probes = true
+  /\ existsb (fun p : list nat * bool * list (string * list nat * bool) * list (nat * list nat) =>
+                let '(_, _, toks, _) := p in existsb (fun t : string * list nat * bool => String.eqb (fst (fst t)) "ILLEGAL") toks)
+             gen_scan_probes = true
+  /\ existsb (fun p : list nat * bool * list (string * list nat * bool) * list (nat * list nat) =>
+                let '(_, _, toks, cmts) := p in (2 <=? List.length toks)%nat && (1 <=? List.length cmts)%nat
+                                               && existsb (fun t : string * list nat * bool => snd t) toks)
+             gen_scan_probes = true.
+Proof. vm_compute. repeat split; reflexivity. Qed.
